@@ -73,6 +73,8 @@ type Step struct {
 	Pfx    []Prefix `json:"pfx,omitempty"`
 	PathID uint32   `json:"path_id,omitempty"`
 	PathIDs []uint32 `json:"path_ids,omitempty"` // per NLRI identifiers (add-path)
+	Wd      []Prefix `json:"wd,omitempty"`      // "announce" steps: NLRI withdrawn in the same UPDATE
+	WdIDs   []uint32 `json:"wd_ids,omitempty"`  // their path identifiers (add-path)
 	Attr   *AttrSpec `json:"attr,omitempty"`
 	ForceMP bool    `json:"force_mp,omitempty"`
 	Policy *PolicySpec `json:"policy,omitempty"`
